@@ -4,6 +4,7 @@ M1  first match wins is wired in: one selector `!has_prev_match & is_match` driv
     updated afterwards, clauses are visited in source order
 M2  sibling constructors split alike: signed scrutinees are split at the arms' boundaries exactly like unsigned ones
 M3  range patterns are lowered with both bound comparisons on every path (inclusive on both ends)
+M6  a number pattern covers a constructor range only if the range is exactly that number: equality with both bounds in all three number arms
 M5  sibling consistency of the parser: struct definitions, struct patterns and struct literals all sort their field lists
     (the exhaustiveness check pairs pattern fields with definition fields by position)
 M4  compound patterns: each field pattern is matched against match_expr[w .. w + size of the field], w advances by that size on
@@ -376,5 +377,74 @@ def rule_m5(ctx):
     return res
 
 
+def rule_m6(ctx):
+    """Exhaustiveness: the constructors of a number type are the pieces the arms' boundaries cut it into.  A number pattern `n`
+    covers a piece only if the piece is exactly {n}; the signed pieces overlap (a..=a and a..=b-1), so `n lies in the piece` is
+    not the same thing.  Sibling agreement of the three number arms of `specialize`."""
+    from . import C09
+    res = RuleResult("M6", "a number pattern covers a constructor range only if the range is exactly that number (all three number arms of specialize)")
+    fid = "check::specialize"
+    if not ctx.has_fn(fid):
+        raise AnchorMissing("M6: check::specialize not found")
+    pairs = {("NumUnsigned", "UnsignedInclusiveRange"): set(), ("NumSigned", "SignedInclusiveRange"): set(), ("NumUnsigned", "SignedInclusiveRange"): set()}
+
+    def classify(origins):
+        out = set()
+        for (f, r, p) in origins:
+            if f != fid:
+                continue
+            if r == ("arg", 1) and len(p) >= 2 and p[-2] in ("as UnsignedInclusiveRange", "as SignedInclusiveRange") and p[-1] in ("1", "2"):
+                out.add(("ctor", p[-2][3:], "min" if p[-1] == "1" else "max"))
+            elif len(p) >= 2 and p[-2] in ("as NumUnsigned", "as NumSigned") and p[-1] == "0":
+                out.add(("pat", p[-2][3:], "n"))
+        return out
+    cast = dict(mir.TRANSPARENT)
+    for body in C09.bodies_with_closures(ctx, fid):
+        cmps = []
+        for b, t in body.calls():
+            if t["func"].get("declared") == "std::cmp::PartialEq::eq" and len(t["args"]) == 2:
+                cmps.append((t["args"][0], t["args"][1]))
+        for blk in body.blocks:
+            for st in blk["stmts"]:
+                if st["k"] == "assign" and st["rv"]["k"] == "binop" and st["rv"]["op"] == "Eq":
+                    cmps.append((st["rv"]["l"], st["rv"]["r"]))
+        for (l, r) in cmps:
+            sides = []
+            for o in (l, r):
+                org = set(ctx.lifted_trace(body, o))
+                # look through `as u64` casts of a bound
+                for (f, rr, pp) in list(org):
+                    if rr[0] == "rv" and rr[1] == "cast":
+                        ob = ctx.body(f)
+                        org |= set(ctx.lifted_trace(ob, ob.blocks[rr[2]]["stmts"][rr[3]]["rv"]["op"]))
+                sides.append(classify(org))
+            for a in sides[0]:
+                for c in sides[1]:
+                    for (x, y) in ((a, c), (c, a)):
+                        if x[0] == "pat" and y[0] == "ctor" and (x[1], y[1]) in pairs:
+                            pairs[(x[1], y[1])].add(("n", y[2]))
+                        if x[0] == "ctor" and y[0] == "ctor" and x[1] == y[1] and x[2] != y[2]:
+                            for k in pairs:
+                                if k[1] == x[1]:
+                                    pairs[k].add(("min", "max"))
+    for (pat, ctor), eqs in sorted(pairs.items()):
+        # n, min, max must be connected by equalities
+        nodes = {"n": "n", "min": "min", "max": "max"}
+
+        def find(x):
+            while nodes[x] != x:
+                x = nodes[x]
+            return x
+        for (a, b) in eqs:
+            nodes[find(a)] = find(b)
+        if len({find(x) for x in ("n", "min", "max")}) == 1:
+            res.ok({"pattern": pat, "constructor": ctor, "verdict": "covered only if n == min == max"})
+        else:
+            res.bad(Finding("M6", fid, "%s pattern vs %s: no equality with both bounds" % (pat, ctor),
+                            "the number of a %s pattern is not compared for equality with both ends of the %s constructor: a number then also covers the overlapping piece above it, "
+                            "and `let -128i8 = x;` or a match with a gap above a literal is accepted as exhaustive" % (pat, ctor), ctx.fn(fid)["sp"]))
+    return res
+
+
 def run(ctx):
-    return ctx.run_rules([rule_m1, rule_m2, rule_m3, rule_m4, rule_m5])
+    return ctx.run_rules([rule_m1, rule_m2, rule_m3, rule_m4, rule_m5, rule_m6])
